@@ -113,12 +113,15 @@ theorem put_sorted (lt : Key → Key → Bool) (n : Nat) (hlt : StrictTotalOn lt
 theorem compare_families (n : Nat) : StrictTotalOn ltUnsigned n ∧ StrictTotalOn ltSigned n ∧ StrictTotalOn lexLt n :=
   ⟨strictTotal_ltUnsigned n, strictTotal_ltSigned n, strictTotal_lexLt n⟩
 
-/-- for unsigned / byte-string key families `Compare` order IS the ascending key-bit order -/
-theorem unsigned_order_is_bit_order (a b : Key) (h : a.length = b.length) : ltUnsigned a b = lexLt a b := by
-  have := lexLt_iff_bitsToNat a b h
-  cases hl : lexLt a b
-  · simp only [ltUnsigned, decide_eq_false_iff_not]; intro h2; rw [this.mpr h2] at hl; cases hl
-  · simp only [ltUnsigned, decide_eq_true_eq]; exact this.mp hl
+/-- for unsigned / byte-string key families `Compare` order IS the ascending key-bit order (this is also the executable
+form `ltUnsignedFast` the model driver runs) -/
+theorem unsigned_order_is_bit_order (a b : Key) (h : a.length = b.length) : ltUnsigned a b = lexLt a b :=
+  ltUnsigned_eq_fast a b h
+
+/-- the executable signed comparison the model driver runs (sign bit first, then the remaining bits) equals two's
+complement numeric order on keys of one width -/
+theorem signed_order_fast (a b : Key) (h : a.length = b.length) : ltSigned a b = ltSignedFast a b :=
+  ltSigned_eq_fast a b h
 
 /-- building by `Put` from any permutation of distinct entries gives the same slice (Keys()/Values()/Items() do not
 depend on insertion order) -/
